@@ -119,6 +119,7 @@ def strip_log(stdout):
 
 # ---------------------------------------------------------------- simplestats
 def base_reward(height):
+    """50 coins halved every 210000 heights (integer halving; zero from the 64th halving on, as in Bitcoin Core)"""
     return (50 * 10**8) >> (height // 210000)
 
 
